@@ -5,13 +5,27 @@ from crosshair.tracers import NoTracing
 from mindsdb_sql import ErrorHandling
 from mindsdb_sql.parser.dialects.mindsdb.lexer import MindsDBLexer
 
-WORDS = ['a', 'bb', 'ccc']
+# token texts as written in the source; the lexer decodes variables and strings, so their token VALUE is shorter than the text
+WORDS = ['a', '@bb', "'c''d'"]
+DECODED = {'@bb': 'bb', "'c''d'": "'c'd'"}
+try:
+    from mindsdb_sql.parser.dialects.mindsdb.lexer import Lexeme as _Lexeme
+except ImportError:          # a tree without Lexeme: values are plain strings
+    _Lexeme = None
 
 
 def _mk(value, lineno, index):
     t = Token()
-    t.type, t.value, t.lineno, t.index, t.end = 'ID', value, lineno, index, index + len(value)
+    t.type, t.lineno, t.index, t.end = 'ID', lineno, index, index + len(value)
+    if value in DECODED and _Lexeme is not None:
+        t.value = _Lexeme(DECODED[value], raw=value)     # what the real lexer action produces
+    else:
+        t.value = value
     return t
+
+
+def _src(tok):
+    return getattr(tok.value, 'raw', None) or str(tok.value)
 
 
 def _layout(l1, l2, l3, g0, g1, g2, b1, b2, lead_nl):
@@ -68,9 +82,9 @@ def location_leaf(l1, l2, l3, g0, g1, g2, b1, b2, lead_nl, bad):
         return False
     if bad >= 0:
         # the characters of the displayed line under the carets are exactly the bad token's text
-        return shown[n_dash:n_dash + n_hat] == toks[bad].value
+        return shown[n_dash:n_dash + n_hat] == _src(toks[bad])
     # end of input: one caret just after the last token
-    return n_hat == 1 and n_dash == len(shown) and shown.endswith(toks[2].value)
+    return n_hat == 1 and n_dash == len(shown) and shown.endswith(_src(toks[2]))
 
 
 def location_reach(l1: int, l2: int, l3: int, g0: int, g1: int, g2: int, b1: int, b2: int, lead_nl: int, bad: int) -> bool:
@@ -102,7 +116,7 @@ def lines_leaf(l1, l2, l3, g0, g1, g2, b1, b2, lead_nl, bad):
     for s in shown:
         if s not in src_lines:
             return False
-    return toks[bad].value in shown[len(shown) - 1].split(' ')
+    return _src(toks[bad]) in shown[len(shown) - 1].split(' ')
 
 
 def lexer_error(pre_len: int, nl_at: int, post_len: int) -> bool:
